@@ -318,8 +318,29 @@ pub fn gen_work(ch: &mut Chooser, kind: Kind, tier: Tier) -> Work {
         Kind::D3 => w.max(h).max(d) as f32 / w.min(h).min(d) as f32,
         Kind::Mesh => 1.0,
     } + 1.0;
-    let m3 = gen_mat3(ch, dims == 2, extent);
-    let m4 = gen_mat4(ch, extent);
+    let mut m3 = gen_mat3(ch, dims == 2, extent);
+    let mut m4 = gen_mat4(ch, extent);
+    // strips and columns (one side far longer than the others): the shape is
+    // a few short-sides wide, so it is moved to a drawn position along the
+    // long axis (otherwise it would always sit in the middle and most of the
+    // length would only ever see empty tiles); the view is a pure translation
+    let sizes = [w, h, d];
+    let used = if kind == Kind::D2 { 2 } else { 3 };
+    let short = sizes[..used].iter().copied().min().unwrap_or(1).max(1);
+    if kind != Kind::Mesh {
+        if let Some(a) = (0..used).find(|a| sizes[*a] >= 8 * short && sizes[*a] >= 150)
+        {
+            let half = sizes[a] as f32 / short as f32;
+            let u = (half - 1.0).max(0.0) * ch.float_sym("long_shift", 1.0, 16);
+            m3 = Matrix3::identity();
+            m4 = Matrix4::identity();
+            if kind == Kind::D2 {
+                m3[(a, 2)] = -u;
+            } else {
+                m4[(a, 3)] = -u;
+            }
+        }
+    }
     let pixel_perfect = ch.odds("pixel_perfect", 1, 4);
     let z = if dims == 3 {
         ch.float_sym("z", 0.5, 5)
